@@ -261,7 +261,7 @@ def units(tier):
     us += [(k, {'kind': 'burn', 'key': k}) for k in ('k1_2d', 'k2_2d', 'k3_2d', 'dsd')]
     us += [('blake', {'kind': 'blake'})] + [('ep_piston/' + m, {'kind': 'piston', 'model': m}) for m in ('hypo', 'hyperIfin', 'hyperFin')]
     us += [('riemann/' + p, {'kind': 'riemann', 'pat': p}) for p in ('SCS', 'SCR', 'RCS', 'RCR')] + [('rod1d/' + b, {'kind': 'heat', 'bc': b}) for b in ('BC1', 'BC2', 'BC3', 'BC4')]
-    us += [('mader', {'kind': 'mader'}), ('ehep', {'kind': 'ehep'}), ('guderley', {'kind': 'gud'})]
+    us += [('mader', {'kind': 'mader'}), ('ehep', {'kind': 'ehep'}), ('guderley', {'kind': 'gud'}), ('sdrz', {'kind': 'sdrz'})] + [('sedov/geometry=%d' % j_, {'kind': 'sedov', 'key': j_}) for j_ in (1, 2, 3)]
     return us
 
 
@@ -273,6 +273,12 @@ def run_unit(name, kind, key=None, model=None, pat=None, bc=None):
     if kind == 'gud':
         from props import guderley_kit
         return guderley_kit.unit('C08')
+    if kind == 'sdrz':
+        from props import sdrz_kit
+        return sdrz_kit.unit_scaling()
+    if kind == 'sedov':
+        from props import sedov_kit
+        return sedov_kit.unit_scaling(key)
     if kind == 'hydro': return unit_hydro(key)
     if kind == 'burn': return unit_burn(key)
     if kind == 'blake': return unit_blake()
